@@ -211,7 +211,9 @@ reverses its corners? Also reports a rounding near-tie of the (non-robust) f64 c
 def triFlip (f : Pt → Pt) : Geom → Bool × Bool
   | .triangle a b c =>
     let cp := crossProd (f a) (f b) (f c)
-    let ints := [f a, f b, f c].all (fun p => isSmallInt p.x && isSmallInt p.y)
+    -- the f64 cross product of `Triangle::new` is exact when the corners are integers below 2^25 (differences below
+    -- 2^26, products below 2^52); larger integers round in the products like any other float
+    let ints := [f a, f b, f c].all (fun p => isSmallInt p.x && isSmallInt p.y && rabs p.x < 33554432 && rabs p.y < 33554432)
     let mag := rabs ((f b).x - (f a).x) * rabs ((f c).y - (f a).y) + rabs ((f b).y - (f a).y) * rabs ((f c).x - (f a).x)
     (cp < 0, !ints && rabs cp ≤ mag / 1099511627776)
   | .collection gs => gs.attach.foldl (fun acc ⟨g, _⟩ => let r := triFlip f g; (acc.1 || r.1, acc.2 || r.2)) (false, false)
